@@ -40,6 +40,10 @@ pub(crate) fn apply_file_system_operations(
     for operation in operations {
         match operation {
             FileSystemOperation::DeleteDirectory(path) => {
+                #[cfg(isographlabs_isograph_verif)]
+                crate::verif::fault_point().map_err(|e| {
+                    unable_to_do_something_at_path_diagnostic(path, &e.to_string(), "verif fault")
+                })?;
                 if path.exists() {
                     fs::remove_dir_all(path.clone()).map_err(|e| {
                         unable_to_do_something_at_path_diagnostic(
@@ -51,6 +55,10 @@ pub(crate) fn apply_file_system_operations(
                 }
             }
             FileSystemOperation::CreateDirectory(path) => {
+                #[cfg(isographlabs_isograph_verif)]
+                crate::verif::fault_point().map_err(|e| {
+                    unable_to_do_something_at_path_diagnostic(path, &e.to_string(), "verif fault")
+                })?;
                 fs::create_dir_all(path.clone()).map_err(|e| {
                     unable_to_do_something_at_path_diagnostic(
                         path,
@@ -61,6 +69,10 @@ pub(crate) fn apply_file_system_operations(
             }
             FileSystemOperation::WriteFile(path, content) => {
                 count += 1;
+                #[cfg(isographlabs_isograph_verif)]
+                crate::verif::fault_point().map_err(|e| {
+                    unable_to_do_something_at_path_diagnostic(path, &e.to_string(), "verif fault")
+                })?;
                 let content = &artifacts
                     .get(content.idx)
                     .expect("index should be valid for artifacts vec")
@@ -75,6 +87,10 @@ pub(crate) fn apply_file_system_operations(
             }
             FileSystemOperation::DeleteFile(path) => {
                 count += 1;
+                #[cfg(isographlabs_isograph_verif)]
+                crate::verif::fault_point().map_err(|e| {
+                    unable_to_do_something_at_path_diagnostic(path, &e.to_string(), "verif fault")
+                })?;
                 fs::remove_file(path.clone()).map_err(|e| {
                     unable_to_do_something_at_path_diagnostic(path, &e.to_string(), "delete file")
                 })?;
